@@ -75,6 +75,12 @@ var c07Binary = [][]byte{
 	// inside a symbol table: an int overrunning a list in symbols; an invalid tag in open content; an overrun in the name field
 	{0xE7, 0x81, 0x83, 0xD4, 0x87, 0xB2, 0xB1, 0x21, 0x20}, {0xE6, 0x81, 0x83, 0xD3, 0x89, 0xB1, 0xF0, 0x20}, {0xE6, 0x81, 0x83, 0xD3, 0x84, 0xC1, 0x31, 0x20},
 	{0x39, 0, 0, 0, 0, 0, 0, 0, 0, 0}, {0x3D, 0, 0, 0, 0, 0, 0, 0, 0, 0, 0, 0, 0, 0},
+	// ten-byte VarUInt / VarInt fields whose value does not fit 64 bits (2^64+3 as a length, 2^64+4 as a field
+	// and as an annotation ID, +-(2^64+5) as a decimal exponent): they must not wrap around to small values
+	{0x8E, 0x02, 0, 0, 0, 0, 0, 0, 0, 0, 0x83, 'a', 'b', 'c'}, {0x2E, 0x02, 0, 0, 0, 0, 0, 0, 0, 0, 0x81, 0x07},
+	{0xDC, 0x02, 0, 0, 0, 0, 0, 0, 0, 0, 0x84, 0x20}, {0xEC, 0x8A, 0x02, 0, 0, 0, 0, 0, 0, 0, 0, 0x84, 0x20},
+	{0x5B, 0x02, 0, 0, 0, 0, 0, 0, 0, 0, 0x85, 0x01}, {0x5B, 0x42, 0, 0, 0, 0, 0, 0, 0, 0, 0x82, 0x01},
+	{0x8E, 0x01, 0x7F, 0x7F, 0x7F, 0x7F, 0x7F, 0x7F, 0x7F, 0x7F, 0xFF}, {0x8E, 0x04, 0, 0, 0, 0, 0, 0, 0, 0, 0x80},
 }
 
 func c07SeedDocs() []doc {
